@@ -1,11 +1,13 @@
 import TfPwaV.Model.LS
 import TfPwaV.Gen.KinF
+import TfPwaV.Model.WignerF
 /-! Line-protocol driver: one op per input line, one answer line per op. -/
 open TfPwaV
 
 def dispatch (ws : List String) : String :=
   match ws with
   | "C13" :: rest => (LS.handle rest).getD "bad-op"
+  | "C12" :: rest => (WignerF.handle rest).getD "bad-op"
   | "C11" :: rest => (KinF.handle rest).getD "bad-op"
   | _ => "bad-op"
 
